@@ -1,0 +1,63 @@
+//go:build verif
+
+package fn1
+
+// Contracts for the function (reader) monad of package fn1 (fn1.go) on fp.Func1[X, A] = func(X) A, checked
+// by /verif/govc.  Comment-only file.  A Func1 is a program reading its argument: the lemmas compare
+// programs applied to an arbitrary argument x, with EqT, i.e. including the sequence of calls to the
+// user's functions.  (Merge/First/Second/… are in verif_contracts.go.)
+
+//@ import "github.com/csgura/fp"
+//
+// ---- primitives by their statement: Pure is the constant function, Get the identity, FlatMap reader bind
+//
+//@ lemma monadPureDef[X, A any](v A, x X)
+//@   prop C01
+//@   ensures EqT(Pure[X](v)(x), v)
+//
+//@ lemma monadGetDef[X any](x X)
+//@   prop C01
+//@   ensures EqT(Get[X]()(x), x)
+//
+//@ lemma monadFlatMapDef[X, A, B any](m fp.Func1[X, A], fn fp.Func1[A, fp.Func1[X, B]], x X)
+//@   prop C01
+//@   ensures EqT(FlatMap(m, fn)(x), fn(m(x))(x))
+//
+// ---- monad laws ------------------------------------------------------------------------------------
+//
+//@ lemma monadLeftIdentity[X, A, B any](a A, f fp.Func1[A, fp.Func1[X, B]], x X)
+//@   prop C01
+//@   ensures EqT(FlatMap(Pure[X](a), f)(x), f(a)(x))
+//
+//@ lemma monadRightIdentity[X, A any](m fp.Func1[X, A], x X)
+//@   prop C01
+//@   ensures EqT(FlatMap(m, func(a A) fp.Func1[X, A] { return Pure[X](a) })(x), m(x))
+//
+//@ lemma monadAssoc[X, A, B, C any](m fp.Func1[X, A], f fp.Func1[A, fp.Func1[X, B]], g fp.Func1[B, fp.Func1[X, C]], x X)
+//@   prop C01
+//@   ensures EqT(FlatMap(FlatMap(m, f), g)(x), FlatMap(m, func(a A) fp.Func1[X, C] { return FlatMap(f(a), g) })(x))
+//
+// ---- derived combinators = their definition in terms of FlatMap and Pure ---------------------------
+//
+//@ lemma monadMapDef[X, A, B any](m fp.Func1[X, A], f fp.Func1[A, B], x X)
+//@   prop C01
+//@   ensures EqT(Map(m, f)(x), FlatMap(m, func(a A) fp.Func1[X, B] { return Pure[X](f(a)) })(x))
+//@   ensures EqT(Map(m, f)(x), f(m(x)))
+//
+//@ lemma monadMapIdentity[X, A any](m fp.Func1[X, A], x X)
+//@   prop C01
+//@   ensures EqT(Map(m, func(a A) A { return a })(x), m(x))
+//
+//@ lemma monadMapCompose[X, A, B, C any](m fp.Func1[X, A], f fp.Func1[A, B], g fp.Func1[B, C], x X)
+//@   prop C01
+//@   ensures EqT(Map(Map(m, f), g)(x), Map(m, func(a A) C { return g(f(a)) })(x))
+//
+//@ lemma monadFlattenDef[X, A any](mm fp.Func1[X, fp.Func1[X, A]], x X)
+//@   prop C01
+//@   ensures EqT(Flatten(mm)(x), FlatMap(mm, func(m fp.Func1[X, A]) fp.Func1[X, A] { return m })(x))
+//@   ensures EqT(Flatten(mm)(x), mm(x)(x))
+//
+//@ lemma monadWithArgDef[X, A any](fn fp.Func1[X, fp.Func1[X, A]], x X)
+//@   prop C01
+//@   ensures EqT(WithArg(fn)(x), FlatMap(Get[X](), fn)(x))
+//@   ensures EqT(WithArg(fn)(x), fn(x)(x))
